@@ -266,6 +266,43 @@ pub fn histories(cfg: &CfgSpec, tier: &str) -> Vec<Case> {
     );
     // admin re-bases the totals with LST = 0 < staked: the next stake sweeps stake the contract does not hold
     add("resume-sweep", vec![ok(Op::ResumeStaked { sender: P::Admin }), ok(stake(P::U(0), MintTo::None, vec![])), H::Do(Op::FeeWithdraw { sender: P::Admin }, cfg.treasury)]);
+    // fault grid (C07 quantifier): every assignment of {success, error ack, timeout} to the three transfers of
+    // "stake to the staker" + "stake with native-chain delivery", delivered in several orders, followed by the
+    // permissionless recoveries and successful delivery of the re-sent transfers
+    let orders: Vec<[usize; 3]> = if tier == "thorough" { vec![[0, 1, 2], [0, 2, 1], [1, 0, 2], [1, 2, 0], [2, 0, 1], [2, 1, 0]] } else { vec![[0, 1, 2], [2, 1, 0]] };
+    for o1 in 0..3u8 {
+        for o2 in 0..3u8 {
+            for o3 in 0..3u8 {
+                for (oi, ord) in orders.iter().enumerate() {
+                    let outs = [o1, o2, o3];
+                    // packets: 1 = stake of U0 (native -> staker), 2 = stake of U1 (native -> staker), 3 = LST of U1 -> n1
+                    let mut steps = vec![resume(), ok(stake(P::U(0), MintTo::None, vec![])), ok(stake(P::U(1), MintTo::Native, vec![]))];
+                    for &k in ord.iter() {
+                        steps.push(ok(Op::Ibc { seq: (k + 1) as u64, outcome: outs[k] }));
+                    }
+                    let native_failed = (o1 != 0) as u64 + (o2 != 0) as u64;
+                    let lst_failed = o3 != 0;
+                    let mut next = 4u64;
+                    // staker recovery: succeeds iff a native transfer was refunded
+                    steps.push(H::Do(recover(None), native_failed > 0));
+                    if native_failed > 0 {
+                        steps.push(fails(recover(None)));
+                        steps.push(ok(Op::Ibc { seq: next, outcome: 0 }));
+                        next += 1;
+                    }
+                    steps.push(H::Do(recover(Some("n1")), lst_failed));
+                    if lst_failed {
+                        steps.push(ok(Op::Ibc { seq: next, outcome: 1 }));
+                        steps.push(ok(recover(Some("n1"))));
+                        steps.push(ok(Op::Ibc { seq: next + 1, outcome: 0 }));
+                    }
+                    steps.push(fails(recover(Some("n1"))));
+                    steps.push(fails(recover(None)));
+                    add(&format!("faults-{o1}{o2}{o3}-o{oi}"), steps);
+                }
+            }
+        }
+    }
     if tier == "thorough" {
         add(
             "cycle3-slash",
